@@ -1,22 +1,86 @@
-(* C19_pins.v — the constants of /repo the C19 model depends on, as the
-   translator (tools/gen_constants.py -> gen/Gen.v) reads them today.  If the
-   filter table, the wildcard marker or the path separator changes in the
-   source, these obligations break.
-   FilterFactory.filters as pinned:
-     re     lambda conf: (conf, None, None)
-     rex    _rex
-     int    lambda conf: ('-?\\d+', int, lambda x: str(int(x)))
-     float  lambda conf: ('-?\\d+(\\.\\d+)?', float, lambda x: str(float(x)))
-     path   lambda conf: (f'.+(?={re.escape(conf)})' if conf else '.+$', None, None)
-   model/RouteUrl.v reads this table as: kinds re/int/float/path (fkind),
-   formatter = third component (f_out_of), int mask -?\d+ (PyIntDec.int_rx). *)
-From Verif Require Import lib.Base gen.Gen model.RouteUrl.
+(* C19_pins.v — the facts about /repo the C19 model depends on, as the
+   translator (tools/gen_constants.py -> gen/Gen.v) observes them on the
+   RUNNING code today (spelling-independent: Gen.filter_table is computed by
+   calling FilterFactory.filters[name](None) and (...)("a.b"), not read from
+   the source text).  rex is not part of the table (outside the model).
+   FilterFactory.filters as pinned  (name, mask for no argument, mask for the
+   argument "a.b", converter applied to the matched text, the out-formatter
+   applied to 5 | "7" | 2.5 | "-03" | 10.0):
+     re     mask(None)=''               mask("a.b")='a.b'            converter=none   formatter samples=none
+     int    mask(None)='-?\\d+'         mask("a.b")='-?\\d+'         converter=int    formatter samples=5|7|2|-3|10
+     float  mask(None)='-?\\d+(\\.\\d+)?' mask("a.b")='-?\\d+(\\.\\d+)?' converter=float  formatter samples=5.0|7.0|2.5|-3.0|10.0
+     path   mask(None)='.+$'            mask("a.b")='.+(?=a\\.b)'    converter=none   formatter samples=none
+   What model/RouteUrl.v reads from it:
+     * the four kinds re / int / float / path (fkind) and nothing else;
+     * converter: int -> handler's PInt (Z_of_dec text), float -> PFloat (fconv text),
+       none (re, path) -> the matched text itself;
+     * formatter (f_out_of / apply_fmt): int -> str(int(x)) = dec_of_Z, float ->
+       str(float(x)), none for re and path — table_agrees_with_model below checks
+       the int samples 5, "7", "-03" against apply_fmt and the float sample 2.5;
+     * masks: int is -?\d+ — implemented by PyIntDec.int_rx over the ASCII
+       digits; the masks of float / re / path are not modelled (section
+       variable rx), they are pinned only so that a change is noticed.
+   If any of this changes in the source, these obligations break. *)
+From Verif Require Import lib.Base lib.Str lib.PyIntDec gen.Gen model.RouteUrl.
 Local Open Scope N_scope.
 
-Lemma filter_table_pinned :
-  Gen.filter_table_src =
-  [([114%N; 101%N], [108%N; 97%N; 109%N; 98%N; 100%N; 97%N; 32%N; 99%N; 111%N; 110%N; 102%N; 58%N; 32%N; 40%N; 99%N; 111%N; 110%N; 102%N; 44%N; 32%N; 78%N; 111%N; 110%N; 101%N; 44%N; 32%N; 78%N; 111%N; 110%N; 101%N; 41%N]); ([114%N; 101%N; 120%N], [95%N; 114%N; 101%N; 120%N]); ([105%N; 110%N; 116%N], [108%N; 97%N; 109%N; 98%N; 100%N; 97%N; 32%N; 99%N; 111%N; 110%N; 102%N; 58%N; 32%N; 40%N; 39%N; 45%N; 63%N; 92%N; 92%N; 100%N; 43%N; 39%N; 44%N; 32%N; 105%N; 110%N; 116%N; 44%N; 32%N; 108%N; 97%N; 109%N; 98%N; 100%N; 97%N; 32%N; 120%N; 58%N; 32%N; 115%N; 116%N; 114%N; 40%N; 105%N; 110%N; 116%N; 40%N; 120%N; 41%N; 41%N; 41%N]); ([102%N; 108%N; 111%N; 97%N; 116%N], [108%N; 97%N; 109%N; 98%N; 100%N; 97%N; 32%N; 99%N; 111%N; 110%N; 102%N; 58%N; 32%N; 40%N; 39%N; 45%N; 63%N; 92%N; 92%N; 100%N; 43%N; 40%N; 92%N; 92%N; 46%N; 92%N; 92%N; 100%N; 43%N; 41%N; 63%N; 39%N; 44%N; 32%N; 102%N; 108%N; 111%N; 97%N; 116%N; 44%N; 32%N; 108%N; 97%N; 109%N; 98%N; 100%N; 97%N; 32%N; 120%N; 58%N; 32%N; 115%N; 116%N; 114%N; 40%N; 102%N; 108%N; 111%N; 97%N; 116%N; 40%N; 120%N; 41%N; 41%N; 41%N]); ([112%N; 97%N; 116%N; 104%N], [108%N; 97%N; 109%N; 98%N; 100%N; 97%N; 32%N; 99%N; 111%N; 110%N; 102%N; 58%N; 32%N; 40%N; 102%N; 39%N; 46%N; 43%N; 40%N; 63%N; 61%N; 123%N; 114%N; 101%N; 46%N; 101%N; 115%N; 99%N; 97%N; 112%N; 101%N; 40%N; 99%N; 111%N; 110%N; 102%N; 41%N; 125%N; 41%N; 39%N; 32%N; 105%N; 102%N; 32%N; 99%N; 111%N; 110%N; 102%N; 32%N; 101%N; 108%N; 115%N; 101%N; 32%N; 39%N; 46%N; 43%N; 36%N; 39%N; 44%N; 32%N; 78%N; 111%N; 110%N; 101%N; 44%N; 32%N; 78%N; 111%N; 110%N; 101%N; 41%N])].
+Definition filter_table_expected : list (str * (str * str * str * str)) :=
+  [([114; 101], ([], [97; 46; 98], [110; 111; 110; 101], [110; 111; 110; 101]));
+   ([105; 110; 116], ([45; 63; 92; 100; 43], [45; 63; 92; 100; 43], [105; 110; 116], [53; 124; 55; 124; 50; 124; 45; 51; 124; 49; 48]));
+   ([102; 108; 111; 97; 116], ([45; 63; 92; 100; 43; 40; 92; 46; 92; 100; 43; 41; 63], [45; 63; 92; 100; 43; 40; 92; 46; 92; 100; 43; 41; 63], [102; 108; 111; 97; 116], [53; 46; 48; 124; 55; 46; 48; 124; 50; 46; 53; 124; 45; 51; 46; 48; 124; 49; 48; 46; 48]));
+   ([112; 97; 116; 104], ([46; 43; 36], [46; 43; 40; 63; 61; 97; 92; 46; 98; 41], [110; 111; 110; 101], [110; 111; 110; 101]))].
+
+Lemma filter_table_pinned : Gen.filter_table = filter_table_expected.
 Proof. reflexivity. Qed.
 
 Lemma tokens_pinned : Gen.param_token = CR /\ Gen.path_sep = SLASH.
+Proof. split; reflexivity. Qed.
+
+(* ---- the table read through the model's own functions ---- *)
+
+Definition row (name : str) : option (str * str * str * str) :=
+  match find (fun e => str_eqb (fst e) name) Gen.filter_table with
+  | Some e => Some (snd e)
+  | None => None
+  end.
+
+Definition s_int : str := [105; 110; 116].
+Definition s_float : str := [102; 108; 111; 97; 116].
+Definition s_re : str := [114; 101].
+Definition s_path : str := [112; 97; 116; 104].
+Definition s_none : str := [110; 111; 110; 101].
+Definition BAR : N := 124.
+
+Definition kind_of_name (name : str) : option fkind :=
+  if str_eqb name s_re then Some KRe else if str_eqb name s_int then Some KInt
+  else if str_eqb name s_float then Some KFloat else if str_eqb name s_path then Some KPath else None.
+
+Definition fmt_text (f : fmt) (v : pyval) : str :=
+  match apply_fmt f v with UOk s => s | _ => [63] end.
+
+(* every row is one of the model's kinds; its converter and the presence of a
+   formatter are what f_out_of says; the formatter samples the model covers
+   (int of 5, "7", "-03"; float of 2.5) are what apply_fmt prints *)
+Definition row_agrees (e : str * (str * str * str * str)) : bool :=
+  let '(name, (m0, m1, conv, samples)) := e in
+  match kind_of_name name with
+  | None => false
+  | Some k =>
+    let cols := split_all N.eqb BAR samples in
+    match f_out_of k with
+    | None => str_eqb conv s_none && str_eqb samples s_none
+    | Some FmtInt =>
+      str_eqb conv s_int && str_eqb m0 [45; 63; 92; 100; 43] && str_eqb m1 m0 &&
+      str_eqb (nth 0 cols []) (fmt_text FmtInt (PInt 5)) &&
+      str_eqb (nth 1 cols []) (fmt_text FmtInt (PStr [55])) &&
+      str_eqb (nth 3 cols []) (fmt_text FmtInt (PStr [45; 48; 51]))
+    | Some FmtFloat =>
+      str_eqb conv s_float && str_eqb m1 m0 &&
+      str_eqb (nth 2 cols []) (fmt_text FmtFloat (PFloat [50; 46; 53]))
+    end
+  end.
+
+Lemma table_agrees_with_model :
+  forallb row_agrees Gen.filter_table = true /\
+  map fst Gen.filter_table = [s_re; s_int; s_float; s_path].
 Proof. split; reflexivity. Qed.
